@@ -196,7 +196,19 @@ impl ObjectReceiver {
             // and its writer exists: completing it before would register the TOI as received
             // although nothing has been delivered (late join between the FDT and the object)
             if self.object_writer.is_some() {
-                self.complete(now);
+                // No BlockWriter exists for an empty object: an announced Content-MD5 is checked here,
+                // the digest must be that of the empty string
+                const EMPTY_MD5: &str = "1B2M2Y8AsgTpgAmY7PhCfg==";
+                let md5_valid = !self.enable_md5_check
+                    || self
+                        .content_md5
+                        .as_deref()
+                        .map(|md5| md5 == EMPTY_MD5)
+                        .unwrap_or(true);
+                match md5_valid {
+                    true => self.complete(now),
+                    false => self.error("MD5 does not match", now, false),
+                }
             }
             return Ok(());
         }
